@@ -262,6 +262,10 @@ def types(a, env=None, func=False):
                     rules_no_restriction(a.returns)
 
                 env_ = dict(env)
+                if t_ret is not None and _types_monomorphic(t_ret):
+                    # The declared return type, for the return statements of the
+                    # body ("return" cannot be the name of a variable).
+                    env_["return"] = t_ret
                 ts = []
                 for arg in a.args.args:
                     var = arg.arg
@@ -339,7 +343,25 @@ def types(a, env=None, func=False):
                                 TypeErrorRoot("target has incompatible type"),
                             )
                         else:
-                            audits(a, "types", typeerror_demote(t))
+                            # The type of the items at the assigned position.
+                            t_item = t_b
+                            for _ in range(depth):
+                                t_item = t_item.__args__[0]
+                            if (
+                                not invalid_index
+                                and t is not None
+                                and not isinstance(t, TypeError)
+                                and unify(t_item, t) is None
+                            ):
+                                audits(
+                                    a,
+                                    "types",
+                                    TypeErrorRoot(
+                                        "assigned value does not have the item type of the target"
+                                    ),
+                                )
+                            elif not invalid_index:
+                                audits(a, "types", typeerror_demote(t))
                     else:
                         audits(
                             a, "types", TypeErrorRoot("unbound variable: " + target_.id)
@@ -398,6 +420,23 @@ def types(a, env=None, func=False):
             rules_no_restriction(a)
             if a.value is not None:
                 types(a.value, env, func)
+                # Calls of a helper function are given its declared return type,
+                # so the values it returns must have that type.
+                t = audits(a.value, "types")
+                t_ret = env.get("return")
+                if (
+                    t_ret is not None
+                    and t is not None
+                    and not isinstance(t, TypeError)
+                    and unify(t_ret, t) is None
+                ):
+                    audits(
+                        a,
+                        "types",
+                        TypeErrorRoot(
+                            "returned value does not have the declared return type"
+                        ),
+                    )
         return env
 
     if isinstance(a, ast.For):
